@@ -24,6 +24,20 @@ def rwidth(rng):
     return rng.randint(0, 2100) if rng.random() < 0.2 else rng.choice(WIDTHS)
 
 
+def rval(rng, w):
+    """payload of a new vector: random, and now and then all zeros / all ones / a single bit"""
+    if not w:
+        return 0
+    r = rng.random()
+    if r < 0.10:
+        return 0
+    if r < 0.15:
+        return (1 << w) - 1
+    if r < 0.20:
+        return 1 << rng.randrange(w)
+    return rng.getrandbits(w)
+
+
 def rint(rng):
     return rng.getrandbits(32)
 
@@ -337,6 +351,11 @@ def c08_exec(plan):
                 ev["a"] = {"h": i, "k": k, "dst": s.get("dst") if res else None, "piece": (u[2] % len(res)) if res else None}
                 if res and s.get("dst") is not None:
                     H[s["dst"]] = res[u[2] % len(res)]
+                    if s.get("dst2") is not None and len(res) > 1 and s["dst2"] != s["dst"]:
+                        # a second piece of the same split is kept too (the pieces must be separate vectors)
+                        p2 = (u[2] + 1 + u[3] % (len(res) - 1)) % len(res)
+                        H[s["dst2"]] = res[p2]
+                        ev["a"]["dst2"], ev["a"]["piece2"] = s["dst2"], p2
             elif op == "hd":
                 i = pick(u[0])
                 if i is None:
@@ -416,7 +435,7 @@ class C08(Machine):
         c0 = pb.client()
         for d in range(rng.randint(2, 4)):
             w = rwidth(rng)
-            pb.step(c0, op="new", dst=d, size=w, val=rng.getrandbits(w) if w else 0, src=rng.choice(["int", "int", "list", "bytes"]))
+            pb.step(c0, op="new", dst=d, size=w, val=rval(rng, w), src=rng.choice(["int", "int", "list", "bytes"]))
         clients = [c0] + [pb.client() for _ in range(nclients - 1)]
         budget = rng.randint(6, 22)
         READS = ["int", "sint", "str", "iter", "hw", "bytes", "bitlist_rev"]
@@ -431,7 +450,7 @@ class C08(Machine):
             dst = rng.randrange(NH)
             if r < 0.06:
                 w = rwidth(rng)
-                pb.step(c, op="new", dst=dst, size=w, val=rng.getrandbits(w) if w else 0, src=rng.choice(["int", "int", "list", "bytes"]))
+                pb.step(c, op="new", dst=dst, size=w, val=rval(rng, w), src=rng.choice(["int", "int", "list", "bytes"]))
             elif r < 0.12:
                 pb.step(c, op=rng.choice(["copy", "bind", "bind"]), dst=dst, u=u)
             elif r < 0.20:
@@ -474,7 +493,7 @@ class C08(Machine):
                 else:
                     pb.step(c, op="concat", u=u, other="int", int=small_int(rng), dst=dst)
             elif r < 0.90:
-                pb.step(c, op="split", u=u, dst=dst if rng.random() < 0.6 else None)
+                pb.step(c, op="split", u=u, dst=dst if rng.random() < 0.6 else None, dst2=rng.randrange(NH) if rng.random() < 0.5 else None)
             elif r < 0.93:
                 pb.step(c, op="getbit", u=u, dst=dst if rng.random() < 0.5 else None)
             elif r < 0.96:
@@ -647,6 +666,9 @@ class C08(Machine):
                     has_res = True
                     if a.get("dst") is not None and a.get("piece") is not None:
                         hc[a["dst"]] = fresh(pieces[a["piece"]])
+                        if a.get("dst2") is not None:
+                            hc[a["dst2"]] = fresh(pieces[a["piece2"]])
+                            probe("two_pieces_of_one_split_kept")
                 elif op == "int":
                     exp_res = R.to_int(cells[hc[a["h"]]])
                     has_res = True
